@@ -2,6 +2,7 @@
 from salib import mir
 from salib.mir import role_str, role_walk, strip_role, role_mentions_field, role_mentions_call, role_mentions_param
 from salib.runner import rule, where_of
+import re
 from . import common as C
 from . import c10
 
@@ -655,3 +656,166 @@ def k10(ctx):
 
 
 RULES.append(k10)
+
+
+# ---------------------------------------------------------------------------- K11: the proof front end (explain/front.rs)
+def _nrm(b, r, depth=0):
+    """role as a string with parameters named by position (p1, p2 ..), transparent calls (clone / deref / borrow) removed and the
+    proof registry abbreviated: insensitive to temporaries, clones and parameter names"""
+    r = strip_role(r)
+    if not isinstance(r, tuple) or depth > 10:
+        return "?"
+    k = r[0]
+    if k == "param":
+        i = b.param_index(r[1])
+        if i is not None and "ProofRegistry" in b.local_ty(i):
+            return "reg"
+        if r[1] == "self":
+            return "self"
+        return "p%s" % i if i is not None else r[1]
+    if k == "field":
+        if r[2] == "proof_registry":
+            return "reg"
+        return "%s.%s" % (_nrm(b, r[1], depth + 1), r[2])
+    if k == "call":
+        if r[1] in ("clone", "deref", "borrow", "as_ref", "to_owned", "into", "equ") and r[3]:
+            return _nrm(b, r[3][0], depth + 1)
+        return "%s(%s)" % (r[1], ", ".join(_nrm(b, a, depth + 1) for a in r[3]))
+    if k == "agg":
+        return "%s{%s}" % (str(r[1]).split("::")[-1], ", ".join(_nrm(b, a, depth + 1) for a in r[2]))
+    if k == "phi":
+        return "phi[%s]" % "|".join(sorted({_nrm(b, a, depth + 1) for a in r[1]}))
+    if k == "const":
+        return "const"
+    if k == "index":
+        return "%s[]" % _nrm(b, r[1], depth + 1)
+    if k == "variant":
+        return _nrm(b, r[1], depth + 1)
+    return k
+
+
+def _aggs(b, adt_suffix):
+    out = []
+    for bi, si, s in b.statements():
+        rv = s["rv"] if s["k"] == "assign" else None
+        if rv and rv["k"] == "agg" and str(rv.get("adt", "")).endswith(adt_suffix) and not b.blocks[bi]["cleanup"]:
+            f = rv.get("fields") or [str(i) for i in range(len(rv["ops"]))]
+            out.append((bi, {n: _nrm(b, b.role_of_operand(rv["ops"][i])) for i, n in enumerate(f)}))
+    return out
+
+
+@rule("K11", cfgs=EXPL, doc="the proof front end builds each step for the equation it is about: symmetry of x proves x.r = x.l; transitivity of (x, y) proves x.l = y.r renamed by match(y.l, x.r); the redundancy proof of a class is find-proof ; symmetry(find-proof); dis-association chains the redundancy proof of the LEFT class in front and of the RIGHT class behind; the necessity test compares each side's slots with its own class; the e-graph level wrappers dis-associate what the kernel returned")
+def k11(ctx):
+    crate = ctx.lib()
+    FR = "explain/front.rs"
+
+    def free(name):
+        bs = [b for b in crate.by_name.get(name, []) if b.kind == "Fn" and (b.file or "").endswith(FR)]
+        if len(bs) != 1:
+            bs = [b for b in crate.by_name.get(name, []) if b.kind != "Closure" and not (b.impl_self or "") and "explain" in (b.file or "")]
+        if len(bs) != 1:
+            raise mir.AnchorMissing("free function explain::front::" + name)
+        return bs[0]
+
+    def meth(name):
+        bs = [b for b in crate.by_name.get(name, []) if b.kind != "Closure" and "egraph::EGraph" in (b.impl_self or "") and "explain" in (b.file or "")]
+        if len(bs) != 1:
+            raise mir.AnchorMissing("EGraph::" + name + " (explanations front end)")
+        return bs[0]
+
+    def one_agg(b, suffix):
+        a = _aggs(b, suffix)
+        if len(a) != 1:
+            raise mir.AnchorMissing("the %s built in %s" % (suffix, b.id), "found %d" % len(a))
+        return a[0]
+
+    # -- the four kernel entry helpers
+    b = free("prove_symmetry")
+    bi, eq = one_agg(b, "proof::Equation")
+    ctx.check((eq["l"], eq["r"]) == ("p1.r", "p1.l"), "symmetry-equation", "prove_symmetry(x) asks the kernel for x.r = x.l",
+              "prove_symmetry(x) asks the kernel for %s = %s instead of x.r = x.l" % (eq["l"], eq["r"]), where_of(b, bi))
+    b = free("prove_reflexivity")
+    bi, eq = one_agg(b, "proof::Equation")
+    ctx.check((eq["l"], eq["r"]) == ("p1", "p1"), "reflexivity-equation", "prove_reflexivity(i) asks for i = i", "prove_reflexivity(i) asks for %s = %s" % (eq["l"], eq["r"]), where_of(b, bi))
+    b = free("prove_explicit")
+    bi, eq = one_agg(b, "proof::Equation")
+    ctx.check((eq["l"], eq["r"]) == ("p1", "p2"), "explicit-equation", "prove_explicit(l, r, j) asks for l = r", "prove_explicit(l, r, j) asks for %s = %s" % (eq["l"], eq["r"]), where_of(b, bi))
+    b = free("prove_transitivity")
+    bi, eq = one_agg(b, "proof::Equation")
+    want = ("p1.l", "apply_slotmap_fresh(p2.r, match_app_id(p2.l, p1.r))")
+    ctx.check((eq["l"], eq["r"]) == want, "transitivity-equation", "prove_transitivity(x, y) asks for x.l = y.r renamed by match_app_id(y.l, x.r)",
+              "prove_transitivity(x, y) asks the kernel for %s = %s; it must be x.l = y.r.apply_slotmap_fresh(match_app_id(y.l, x.r)): the renaming that carries y's names into x's is found by matching y's LEFT side against x's RIGHT side" % (eq["l"], eq["r"]), where_of(b, bi))
+    bi, tp = one_agg(b, "proof::TransitivityProof")
+    ctx.check([tp[k] for k in sorted(tp)] == ["p1", "p2"], "transitivity-premises", "the premises are (x, y) in order", "prove_transitivity(x, y) hands the kernel the premises %s" % [tp[k] for k in sorted(tp)], where_of(b, bi))
+
+    # -- redundancy proof of a class: syn-identity -> leader -> syn-identity
+    b = meth("get_redundancy_proof")
+    ret = _nrm(b, b.role_of_local(0))
+    A = "proven_find_applied_id(self, mk_syn_identity_applied_id(self, p2)).proof"
+    ctx.check(ret == "prove_transitivity(%s, prove_symmetry(%s, reg), reg)" % (A, A), "redundancy-proof", "get_redundancy_proof(i) = transitivity(find-proof(i), symmetry(find-proof(i)))",
+              "get_redundancy_proof(i) returns %s; it must chain the find-proof of the class's syntactic identity invocation with ITS OWN reversal, in that order (identity -> leader -> identity): the other order proves leader = leader, which says nothing about the redundant slots" % ret[:200], where_of(b))
+
+    # -- dis-association
+    b = meth("disassociate_proven_eq")
+    n_t = 0
+    for c in b.calls:
+        if not c.callee or c.callee.name != "prove_transitivity" or b.blocks[c.bb]["cleanup"]:
+            continue
+        args = [strip_role(b.role_of_operand(a)) for a in c.args]
+        reds = [(i, a) for i, a in enumerate(args[:2]) if isinstance(a, tuple) and a[0] == "call" and a[1] == "get_redundancy_proof"]
+        if len(reds) != 1:
+            continue
+        n_t += 1
+        i, a = reds[0]
+        idr = _nrm(b, a[3][-1])
+        side = "l" if idr.endswith(".l.id") else "r" if idr.endswith(".r.id") else "?"
+        ok = (i, side) in ((0, "l"), (1, "r"))
+        ctx.check(ok, "disassociate-side:%d" % i, "the redundancy proof chained %s the equation is that of its %s class" % ("in front of" if i == 0 else "behind", "left" if i == 0 else "right"),
+                  "disassociate_proven_eq chains the redundancy proof of the equation's %s class %s the equation: in front goes the LEFT class's, behind goes the RIGHT class's — the kernel's transitivity check fails whenever the two sides are different classes with redundant slots" % ({"l": "left", "r": "right"}.get(side, idr), "in front of" if i == 0 else "behind"), where_of(b, c.bb))
+    ctx.floor("redundancy proofs chained in disassociate_proven_eq", n_t, 2)
+    ctx.check(any(c.callee and c.callee.name == "disassociation_necessary" for c in b.calls), "disassociate-guarded", "dis-association is decided by disassociation_necessary", "disassociate_proven_eq no longer consults disassociation_necessary", where_of(b))
+
+    b = meth("disassociation_necessary")
+    n_c = 0
+    sides = set()
+    for c in b.all_calls():
+        if not c.callee or c.callee.name != "contains" or c.body.blocks[c.bb]["cleanup"] or len(c.args) < 2:
+            continue
+        s0 = _nrm(c.body, c.body.role_of_operand(c.args[0]))
+        s1 = _nrm(c.body, c.body.role_of_operand(c.args[1]))
+        m0 = re.match(r"slots\(self, (.*)\.([lr])\.id\)$", s0)
+        m1 = re.search(r"inverse\((.*?)\.([lr])\.m\)", s1)
+        if not m0 or not m1:
+            continue
+        n_c += 1
+        sides.add(m0.group(2))
+        ctx.check(m0.group(2) == m1.group(2), "necessity-own-class:" + m0.group(2), "a shared slot is traced back through %s.m and looked up among the slots of %s's class" % (m0.group(2), m0.group(2)),
+                  "disassociation_necessary traces a shared slot back through the %s side's map but looks it up among the slots of the %s side's class: the test answers for the wrong class, so a proof that still associates redundant slots is passed on (the kernel rejects a later step) or every proof is needlessly re-chained" % (m1.group(2), m0.group(2)), where_of(c.body, c.bb))
+    ctx.floor("slot look-ups in disassociation_necessary", n_c, 2)
+    ctx.check(sides == {"l", "r"}, "necessity-both-sides", "both sides of the equation are examined", "disassociation_necessary examines only the %s side" % sorted(sides), where_of(b))
+    its = [l for l in C.iterator_loops(b)]
+    shared = [l for l in its if "bitand(slots(" in _nrm(b, l[1]) and ".l)" in _nrm(b, l[1]) and ".r)" in _nrm(b, l[1])]
+    ctx.check(bool(shared) or not its, "necessity-over-shared-slots", "the test ranges over the slots both sides mention", "disassociation_necessary no longer ranges over slots(l) & slots(r): %s" % [_nrm(b, l[1])[:80] for l in its], where_of(b))
+    # true is returned exactly when a look-up fails
+    for d in b.defs().get(0, []):
+        if d["kind"] == "assign" and C.const_bool(d["rv"]) is True:
+            conds = [cnd for e, cnd in C.conditions_at(b, d["bb"]) if cnd[0] == "false" and isinstance(strip_role(cnd[1]), tuple) and strip_role(cnd[1])[0] == "call" and strip_role(cnd[1])[1] == "contains"]
+            ctx.check(bool(conds), "necessity-true-on-missing", "`true` is answered when a shared slot is not a slot of its class", "disassociation_necessary answers true on a path on which no slot was found missing", where_of(b, d["bb"]))
+
+    # -- e-graph level wrappers
+    for name in ("prove_explicit", "prove_reflexivity", "prove_symmetry", "prove_transitivity"):
+        b = meth(name)
+        b = crate.bodies.get(b.id, b)          # (the raw body: the free helper of the same name stays a call)
+        ret = _nrm(b, b.role_of_local(0))
+        ok = ret.startswith("disassociate_proven_eq(self, %s(" % name) and ret.endswith(", reg))")
+        if not ok and ret.startswith("disassociate_proven_eq(self, check("):
+            ctx.ok("wrapper-disassociates:" + name, "EGraph::%s dis-associates the kernel's result (helper folded in)" % name, where_of(b))
+            continue
+        ctx.check(ok, "wrapper-disassociates:" + name, "EGraph::%s = disassociate_proven_eq(%s(..))" % (name, name),
+                  "EGraph::%s returns %s: every proof that enters the e-graph must be maximally dis-associated (redundant slots of the two sides not identified), the other front-end functions assume it" % (name, ret[:120]), where_of(b))
+        # arguments in order
+        inner = ret[len("disassociate_proven_eq(self, %s(" % name):-len(", reg))")] if ok else ""
+        if ok:
+            want_args = ", ".join("p%d" % i for i in range(2, b.argc + 1))
+            ctx.check(inner == want_args, "wrapper-args:" + name, "the wrapper passes its arguments on in order", "EGraph::%s passes (%s) on to the kernel helper instead of (%s)" % (name, inner, want_args), where_of(b))
+RULES.append(k11)
